@@ -1,6 +1,8 @@
 import MotoModel.Model.Py
 import MotoModel.Model.LineTools
 import MotoModel.Spec.LineTools
+import MotoModel.Model.Tape
+import MotoModel.Spec.K7
 open Moto
 
 def hexVal (c : Char) : Nat :=
@@ -29,6 +31,47 @@ def uncp (s : String) : List Nat :=
 def cp (l : List Nat) : String :=
   if l.isEmpty then "-" else ",".intercalate (l.map toString)
 
+def errName : PyErr → String
+  | .valueError _ => "ValueError"
+  | .indexError => "IndexError"
+  | .typeError => "TypeError"
+  | .overflowError => "OverflowError"
+  | .unicodeError => "UnicodeDecodeError"
+  | .nameError => "UnboundLocalError"
+  | .attributeError => "AttributeError"
+  | .osError k => k
+
+def showStatus : Tape.Status → String
+  | .ret n => s!"ok{n}"
+  | .raised e => errName e
+
+/-- `status|out lines|mkdirs|writes` -/
+def showOutcome (o : Tape.Outcome) : String :=
+  showStatus o.status ++ "|" ++ ";".intercalate (o.out.map cp) ++ "|" ++ ";".intercalate (o.mkdirs.map cp)
+    ++ "|" ++ ";".intercalate (o.writes.map fun (p, b) => cp p ++ ">" ++ hex b)
+
+def worldOf : List String → List (Str × Option Bytes)
+  | p :: c :: rest => (uncp p, if c == "missing" then none else some (unhex c)) :: worldOf rest
+  | _ => []
+
+def lookupWorld (w : List (Str × Option Bytes)) (p : Str) : Option Bytes :=
+  match w.find? (fun e => e.1 == p) with
+  | some (_, c) => c
+  | none => none
+
+def sfilesOf : List String → List Spec.K7.SFile
+  | n :: e :: k :: m :: c :: rest => ⟨uncp n, uncp e, k.toNat!, m.toNat!, unhex c⟩ :: sfilesOf rest
+  | _ => []
+
+def wblocksOf : List String → List Spec.K7.WBlock
+  | l :: t :: p :: g :: rest => ⟨l.toNat!, t.toNat!, unhex p, unhex g⟩ :: wblocksOf rest
+  | _ => []
+
+/-- leader blocks whose name/extension bytes are not ASCII are outside the modelled domain -/
+def tapeModelled (tape : Bytes) : Bool :=
+  (Tape.readAll tape).all fun raw =>
+    !(raw.getD 0 1 == Gen.Tape.typeLeader) || (slice raw 2 13).all (· < 128)
+
 def handle (args : List String) : String :=
   match args with
   | ["ping"] => "pong"
@@ -39,6 +82,22 @@ def handle (args : List String) : String :=
       hex ((((readlines (uncp t)).map (fun l => (rstripBy isSpacePy l).filter (· < 128))).filter (· ≠ [])).flatMap
         (· ++ (if d == "1" then [13, 10] else [10])))
   | ["spec.upper", t] => cp (Spec.specUpper false (uncp t))
+  | "tape.inject" :: v :: archive :: n :: rest =>
+      let srcs := (rest.take n.toNat!).map uncp
+      let w := worldOf (rest.drop n.toNat!)
+      showOutcome (Tape.inject (lookupWorld w) (v == "v") (uncp archive) srcs)
+  | ["tape.list", v, t] =>
+      let tape := unhex t
+      if tapeModelled tape then showOutcome (Tape.enumerate (v == "v") tape) else "unmodelled"
+  | ["tape.extract", v, archive, into, t] =>
+      let tape := unhex t
+      if tapeModelled tape then
+        showOutcome (Tape.extract (v == "v") (uncp archive) (if into == "~" then none else some (uncp into)) tape)
+      else "unmodelled"
+  | ["tape.blocks", t] => ";".intercalate ((Tape.readAll (unhex t)).map hex)
+  | "k7.tape" :: rest => hex (Spec.K7.tape (sfilesOf rest))
+  | "k7.encsize" :: rest => toString (Spec.K7.encSize (sfilesOf rest))
+  | "k7.render" :: pre :: rest => hex (Spec.K7.render (unhex pre) (wblocksOf rest))
   | ["prettier", t] => ";".intercalate ((prettierText (uncp t)).map cp)
   | "nl" :: s :: i :: w :: files =>
       ";".intercalate ((nlRun ⟨s.toNat!, i.toNat!, w.toNat!⟩ (files.map uncp)).map cp)
